@@ -209,7 +209,7 @@ theorem wok_MK_INIT_ARRAY (md : Module) (ins : Instr) (orc : Oracle) (N : Nat) (
 set_option maxHeartbeats 4000000 in
 set_option maxRecDepth 8000 in
 theorem exec_wok_table (md : Module) (ins : Instr) (orc : Oracle) (p q : Nat) (h : simpleEffect ins = some (p, q))
-    (N : Nat) (s : Int) (h0 : -1 ≤ s) (h1 : s < N) (h12 : ins.op = .BUILD_IN → ins.w0 = 12 → s + 1 < N) :
+    (N : Nat) (s : Int) (h0 : -1 ≤ s) (h1 : s < N) :
     WOk N s (exec md ins orc) := by
   cases hb : binOpOf ins.op with
   | some tb =>
@@ -253,7 +253,7 @@ theorem exec_wok_table (md : Module) (ins : Instr) (orc : Oracle) (p q : Nat) (h
     | (rw [hop] at hm; simp [mkArrayElem] at hm; done) | skip)
   all_goals simp only [simpleEffect, hop, binOpOf, unOpOf, convOf, nilCmpOf, strAddOf, arrOpOf, mkArrayElem, Option.isSome_none, Bool.false_eq_true, if_false] at h
   all_goals (first | (cases h; done) | skip)
-  case BUILD_IN => exact wok_BUILD_IN md ins orc N s h0 h1 (h12 hop) hop
+  case BUILD_IN => exact wok_BUILD_IN md ins orc N s h0 h1 hop
   all_goals first
     | exact wok_INT md ins orc N s h0 h1 hop
     | exact wok_LONG md ins orc N s h0 h1 hop
@@ -322,15 +322,13 @@ theorem exec_wok_table (md : Module) (ins : Instr) (orc : Oracle) (p q : Nat) (h
     | exact wok_ARRAY_DEREF md ins orc N s h0 h1 (Or.inr hop)
 
 
-/-- **every handler.**  From `−1 ≤ sp < stackSize` no handler of `exec` ends in the crash of a stack store outside the array, with two
-provisos that are stated, not assumed away: SLIDE `q m` with both operands non-zero needs `−1 ≤ sp − q − m` (its first store goes to
-`sp − q − m + 1`; the certificate of a verified module gives this at the recorded height), and the build-in `read` (id 12) needs
-`sp + 1 < stackSize` (libvm.c LIB_MATH_READ pushes without `vm_check_stack`). -/
+/-- **every handler.**  From `−1 ≤ sp < stackSize` no handler of `exec` ends in the crash of a stack store outside the array, with one
+proviso that is stated, not assumed away: SLIDE `q m` with both operands non-zero needs `−1 ≤ sp − q − m` (its first store goes to
+`sp − q − m + 1`; the certificate of a verified module gives this at the recorded height). -/
 theorem exec_wok (md : Module) (ins : Instr) (orc : Oracle) (N : Nat) (s : Int) (h0 : -1 ≤ s) (h1 : s < N)
-    (hslide : ins.op = .SLIDE → ins.w0 ≠ 0 → ins.w1 ≠ 0 → -1 ≤ s - (ins.w0 : Int) - (ins.w1 : Int))
-    (h12 : ins.op = .BUILD_IN → ins.w0 = 12 → s + 1 < N) : WOk N s (exec md ins orc) := by
+    (hslide : ins.op = .SLIDE → ins.w0 ≠ 0 → ins.w1 ≠ 0 → -1 ≤ s - (ins.w0 : Int) - (ins.w1 : Int)) : WOk N s (exec md ins orc) := by
   cases he : simpleEffect ins with
-  | some pq => exact exec_wok_table md ins orc pq.1 pq.2 he N s h0 h1 h12
+  | some pq => exact exec_wok_table md ins orc pq.1 pq.2 he N s h0 h1
   | none =>
     rcases simpleEffect_none_cases ins he with h | h | h | h | h | h | h | h | h | h | h | h | h | h
     · exact WOk.of_nowc (nowc_exec_nostore md ins orc (by simp [h]))
@@ -350,8 +348,7 @@ theorem exec_wok (md : Module) (ins : Instr) (orc : Oracle) (N : Nat) (s : Int) 
 
 /-- **`step`.**  fetch, `ip++`, handler, exception dispatch: the fetch and the dispatch store nothing -/
 theorem step_wok (md : Module) (orc : Oracle) (vm : Vm) (h0 : -1 ≤ vm.sp) (h1 : vm.sp < vm.stackSize)
-    (hslide : ∀ ins, md.code[vm.ip]? = some ins → ins.op = .SLIDE → ins.w0 ≠ 0 → ins.w1 ≠ 0 → -1 ≤ vm.sp - (ins.w0 : Int) - (ins.w1 : Int))
-    (h12 : ∀ ins, md.code[vm.ip]? = some ins → ins.op = .BUILD_IN → ins.w0 = 12 → vm.sp + 1 < vm.stackSize) :
+    (hslide : ∀ ins, md.code[vm.ip]? = some ins → ins.op = .SLIDE → ins.w0 ≠ 0 → ins.w1 ≠ 0 → -1 ≤ vm.sp - (ins.w0 : Int) - (ins.w1 : Int)) :
     (step md orc).run vm ≠ .error wildWrite := by
   intro he
   unfold step at he
@@ -371,7 +368,7 @@ theorem step_wok (md : Module) (orc : Oracle) (vm : Vm) (h0 : -1 ≤ vm.sp) (h1 
     have e1 := set_run _ _ _ _ g1
     rw [e1] at he2
     rcases (run_bind_err _ _ _ _).mp he2 with e2 | ⟨u2, s2, g2, he3⟩
-    · exact exec_wok md ins orc vm.stackSize vm.sp h0 h1 (hslide ins hf) (h12 ins hf) { vm with ip := vm.ip + 1 } rfl rfl e2
+    · exact exec_wok md ins orc vm.stackSize vm.sp h0 h1 (hslide ins hf) { vm with ip := vm.ip + 1 } rfl rfl e2
     rcases (run_bind_err _ _ _ _).mp he3 with e3 | ⟨v3, s3, g3, he4⟩
     · exact nowc_get _ e3
     obtain ⟨e3, e3'⟩ := get_run _ _ _ g3
